@@ -759,6 +759,19 @@ class _Literals(ast.NodeTransformer):
             else:
                 merged.append(a)
         body = merged
+        # `a, b = X, Y` (literal tuple on both sides, no target read on the right) -> `a = X; b = Y`
+        merged = []
+        for a in body:
+            if isinstance(a, ast.Assign) and len(a.targets) == 1 and isinstance(a.targets[0], ast.Tuple) and isinstance(a.value, ast.Tuple) \
+                    and len(a.targets[0].elts) == len(a.value.elts) and all(isinstance(t, ast.Name) for t in a.targets[0].elts) \
+                    and not any(isinstance(e, ast.Starred) for e in a.value.elts):
+                names = {t.id for t in a.targets[0].elts}
+                if len(names) == len(a.targets[0].elts) and not any(isinstance(x, ast.Name) and x.id in names for e in a.value.elts for x in ast.walk(e)):
+                    for t, e in zip(a.targets[0].elts, a.value.elts):
+                        merged.append(ast.copy_location(ast.Assign([ast.Name(t.id, ast.Store())], e), a))
+                    continue
+            merged.append(a)
+        body = merged
         for s in body:
             if isinstance(s, ast.Assign) and len(s.targets) == 1 and isinstance(s.targets[0], ast.Tuple) \
                     and all(isinstance(t, ast.Name) for t in s.targets[0].elts) and _pure_chain(s.value) \
@@ -1113,7 +1126,7 @@ class Repo:
         from .inline import inline_new_helpers, known_functions, undo_renames
         self.renamed = undo_renames({mod: v[3] for mod, v in raw.items()})
         for mod, (path, rel, src, tree) in raw.items():
-            tree = items_loops(paired_names(literal_forms(numpy_idioms(function_aliases(compiled_regexes(strip_inert(tree)))))))
+            tree = items_loops(literal_forms(paired_names(numpy_idioms(function_aliases(compiled_regexes(strip_inert(tree)))))))
             tree, inl, skipped = inline_new_helpers(tree, mod, known_functions())
             if inl:
                 self.inlined[mod] = sorted(set(inl))
